@@ -9,6 +9,7 @@ from __future__ import annotations
 
 import multiprocessing as mp
 import random
+import zlib
 import time
 
 from bounded import nixgen as G
@@ -166,7 +167,7 @@ def files(tier, seed):
             v = g.value(2, 1, kind)
             for wrap in ("{\n  a = %s;\n}\n", "{\n  a = {\n    b = %s;\n  };\n}\n"):
                 ind = 2 if wrap.count("{") == 1 else 4
-                v2 = Gen(random.Random(rep * 31 + hash(kind) % 1000), 3).value(ind, 1, kind)
+                v2 = Gen(random.Random(rep * 31 + zlib.crc32(kind.encode()) % 1000), 3).value(ind, 1, kind)
                 out.append((wrap % v2).replace("= \n", "=\n"))
     for bk in ["plain", "quoted", "attrpath", "inherit", "inherit_from"]:
         for rep in range(6):
@@ -180,6 +181,10 @@ def files(tier, seed):
         out.append(g3.file(sizes[i % len(sizes)]))
     res = []
     for t in out:
+        # the installed py-tree-sitter (0.26.0) corrupts memory when a Point coordinate exceeds 256 (use after free in
+        # point_new_internal: wrong rows, sporadic segfaults) - every generated input stays well inside (DESIGN.md 9)
+        if t.count("\n") > 240 or max(len(ln) for ln in t.split("\n")) > 240:
+            continue
         if t not in seen:
             seen.add(t)
             res.append(t)
